@@ -40,7 +40,7 @@ def patches_of(x):
 def run(R):
     if not R.build():
         return
-    R.lean(["C11", "C11Header"])
+    R.lean(["C11", "C11Header", "C11Concat"])
     import hunted
     hunted.run(R, "C11")
     quick = R.tier == "quick"
